@@ -283,9 +283,9 @@ where
                 let inserted =
                     self.min_store
                         .update_with_maxtracker(k, &x, i, &mut self.max_tracker);
-                if !inserted {
-                    break;
-                }
+                // a value rejected by slot k can still enter another slot (x only has to be below the tracked max) :
+                // leaving the loop here made the selection depend on the order of the sequence
+                let _ = inserted;
                 // x is growing, so even if last update was possible at slot k, it is possible another value of x
                 // cannot be inserted (if k was last possible index), if no update possible after preceding update, we can exit
                 if !self.max_tracker.is_update_possible(x) {
